@@ -477,14 +477,9 @@ class IntersectionMatcher(AdditiveBiMatcher):
 
         a = a.replace(a_min)
         b = b.replace(b_min)
-        a_active = a.is_active()
-        b_active = b.is_active()
-        if not (a_active or b_active):
+        if not (a.is_active() and b.is_active()):
+            # An intersection needs both sides
             return mcore.NullMatcher()
-        elif not a_active:
-            return b
-        elif not b_active:
-            return a
         elif a is not self.a or b is not self.b:
             return self.__class__(a, b)
         else:
